@@ -866,11 +866,11 @@ func main() {
 	}
 	exhaustive := true
 	type row struct {
-		Config       string `json:"config"`
-		Ops          int    `json:"ops"`
-		Depth        int    `json:"depth"`
-		States       int    `json:"states"`
-		Transitions  int    `json:"transitions"`
+		Config      string `json:"config"`
+		Ops         int    `json:"ops"`
+		Depth       int    `json:"depth"`
+		States      int    `json:"states"`
+		Transitions int    `json:"transitions"`
 	}
 	var rows []row
 	sweepPart(r.Quick())
@@ -907,7 +907,7 @@ func main() {
 	}())
 	r.Set("combined_threshold", threshold)
 	r.Exhaustive(exhaustive)
-	r.Rule("per configuration (tree depth x writer) BFS over operation sequences up to the listed depth with state dedup; operations: Put as plain file, Put into a single-member combined file, two concurrent Puts sharing a combined file, PutBatch of every ordered selection of 1..3 addresses (member order forced), Delete; after every transition the full read battery runs on all addresses. State = reference map + canonical directory listing (paths, content hashes, hard-link groups). distinct_nontrivial = distinct states reached plus boundary-sweep cases. Boundary sweep (enumerated, not BFS): combined files of 2-3 members (PutBatch, forced order) whose leading member sizes are swept so that the next member prefix starts at every file offset in [E-80, E+2] for every buffer end E of the member-prefix scan (E = B and 2B with B = NonPayloadFieldsBufferLength, after a prefix straddling the first buffer end, after a seek over a member longer than the buffer), member lengths with non-zero low bytes, caller buffers poisoned; the same read battery on every member. Header-buffer size sweep: objects of every plain size in [B-44, B+20] / [B-20, B+20] (quick; thorough +-64, also around 2B) with incompressible, compressible and mixed payloads, stored raw and zstd-compressed (so that plain size and stored size independently fall below, at and above B; mixed payloads put the stored size of a >2B object around B), each as single file, first member and last member of a combined file; the same read battery on each")
+	r.Rule("per configuration (tree depth x writer) BFS over operation sequences up to the listed depth with state dedup; operations: Put as plain file, Put into a single-member combined file, two concurrent Puts sharing a combined file, PutBatch of every ordered selection of 1..3 addresses (member order forced), Delete; after every transition the full read battery runs on all addresses. State = reference map + canonical directory listing (paths, content hashes, hard-link groups). distinct_nontrivial = distinct states reached plus boundary-sweep cases. Boundary sweep (enumerated, not BFS): combined files of 2-3 members (PutBatch, forced order) whose leading member sizes are swept so that the next member prefix starts at every file offset in [E-80, E+2] for every buffer end E of the member-prefix scan (E = B and 2B with B = NonPayloadFieldsBufferLength, after a prefix straddling the first buffer end, after a seek over a member longer than the buffer), member lengths with non-zero low bytes, caller buffers poisoned; the same read battery on every member; the same prefix alignments (0..38 prefix bytes inside the read window, plus margins; thorough: the whole [E-80, E+2] window, also around 2B) with a swept member that is itself streamed (B+321 bytes; 2B+411 bytes) in last and middle position, after a straddling prefix (19 / 37 bytes buffered) and after a seek. Header-buffer size sweep: objects of every plain size in [B-44, B+20] / [B-20, B+20] (quick; thorough +-64, also around 2B) with incompressible, compressible and mixed payloads, stored raw and zstd-compressed (so that plain size and stored size independently fall below, at and above B; mixed payloads put the stored size of a >2B object around B), each as single file, first member and last member of a combined file; the same read battery on each")
 	r.Assume("content per address is fixed (content-addressed storage; the linux writer treats EEXIST as success by design)",
 		"directories left empty by Delete are not part of the state key: no API can observe them",
 		"histories are sequential except for the two-concurrent-Puts operation, whose outcome is made deterministic by a count limit of 2 and a batch timer that never fires; other interleavings belong to C13",
